@@ -330,6 +330,10 @@ def gen_for(prop):
             cs += reject_stories(r, 48 * k); cs += stories(r, NEND * k); cs += bursts(r, 24 * k)
             cs += walks(r, 200 if T else 40)
             cs += crash_sweep(r, 2 * k, 3)
+            # the handler task of one held HTLC has gone away (a closed listener): the others are still resolved together
+            kinds = ["low_expiry", "low_total", "other_invoice", "other_amount"]
+            cs += [story_case(r.fork(), ending=r.choice(PAY_ENDINGS), npieces=3, hangup=(1 + i % 3, i)) for i in range(12 * k)]
+            cs += [story_case(r.fork(), ending=r.choice(PAY_ENDINGS), npieces=3, reject=(kinds[i % 4], 2), hangup=(1 + i % 2, i)) for i in range(8 * k)]
         elif prop == "C09":
             cs += [add_probe(c) for c in stories(r, NEND * k)]
             cs += crash_sweep(r, (22 if T else 5), 1 if T else 2, probe=True)
